@@ -3394,7 +3394,12 @@ class Session(object):
         pool = self._pools.pop(host, None)
         if pool:
             log.debug("Removed connection pool for %r", host)
-            return self.submit(pool.shutdown)
+            future = self.submit(pool.shutdown)
+            if future is None:
+                # the session was shut down meanwhile: nothing runs tasks any more and
+                # shutdown()'s sweep no longer sees this pool
+                pool.shutdown()
+            return future
         else:
             return None
 
